@@ -33,7 +33,8 @@ CONSTANTS
     MaxDepth,    \* builder: maximal nesting depth of an item
     MaxArr,      \* builder: maximal array length
     MaxPairs,    \* builder: maximal number of map pairs
-    AllowWrap    \* builder: whether bstr .cbor wrapping (WrapBstr) is enabled
+    AllowWrap,   \* builder: whether bstr .cbor wrapping (WrapBstr) is enabled
+    Simples      \* builder: which of False, True, Null are leaves
 
 VARIABLE stack   \* the builder's stack of data items; a state with one item is a finished item
 
@@ -348,7 +349,7 @@ Nodes(v) == 1 + NodesSeq(v.kids)
 DepthSeq(s) == IF Len(s) = 0 THEN 0 ELSE LET d == Depth(s[1]) e == DepthSeq(Tail(s)) IN IF d > e THEN d ELSE e
 Depth(v) == 1 + DepthSeq(v.kids)
 
-Leaves == Ints \cup Strs \cup {False, True, Null}
+Leaves == Ints \cup Strs \cup Simples
 KeyKinds == {"uint", "nint", "tstr"}
 
 LastK(k) == SubSeq(stack, Len(stack) - k + 1, Len(stack))
@@ -406,44 +407,63 @@ TopEnc == Enc(Top)
 
 TypeOK == Len(stack) <= MaxStack /\ NodesSeq(stack) <= MaxNodes
 
+\* Each theorem is stated for an item v and its encoding e = Enc(v).
+
 \* decode inverts encode, consuming everything
-RoundTrip ==
-    HasTop => LET e == TopEnc r == Dec(e) IN r.ok /\ r.v = Plain(Top) /\ r.next = Len(e) + 1
+RoundTripOf(v, e) == LET r == Dec(e) IN r.ok /\ r.v = Plain(v) /\ r.next = Len(e) + 1
 
 \* encodings are self-delimiting: the item length of Enc(v) followed by anything is Len(Enc(v))
 Junk == {<<>>, <<0>>, <<255>>, <<159, 1>>, <<24>>, <<246, 246>>}
-SelfDelimiting ==
-    HasTop => LET e == TopEnc IN
-              /\ Class(e) = "def" /\ ItemLen(e) = Len(e) /\ WellFormed(e)
-              /\ \A x \in Junk : ItemLen(e \o x) = Len(e)
+SelfDelimitingOf(e) ==
+    /\ Class(e) = "def" /\ ItemLen(e) = Len(e) /\ WellFormed(e)
+    /\ \A x \in Junk : ItemLen(e \o x) = Len(e)
 
 \* no proper prefix of an encoding is an item (with SelfDelimiting: the code is prefix-free)
-NoItemIsAPrefix ==
-    HasTop => LET e == TopEnc IN \A k \in 0..(Len(e) - 1) : Class(SubSeq(e, 1, k)) = "bad"
-
-\* distinct items have distinct, prefix-incomparable encodings
-PrefixFree ==
-    \A i, j \in 1..Len(stack) :
-        (i # j /\ Plain(stack[i]) # Plain(stack[j])) => ~IsPrefix(Enc(stack[i]), Enc(stack[j]))
+\* (for long encodings a sample of the cut points keeps the check linear: the first 12, the last 3, every 37th)
+CutPoints(n) == {k \in 0..(n - 1) : k < 12 \/ k >= n - 3 \/ k % 37 = 0}
+NoItemIsAPrefixOf(e) == \A k \in CutPoints(Len(e)) : Class(SubSeq(e, 1, k)) = "bad"
 
 \* the encoder's output is canonical: minimal heads, map keys strictly increasing bytewise
-CanonicalEncoding == HasTop => Canonical(TopEnc)
+CanonicalEncodingOf(e) == Canonical(e)
 
 \* re-encoding what was decoded reproduces canonical bytes (stated on bytes: Enc(Dec(b)) = b)
-ReEncode == HasTop => LET e == TopEnc IN Enc(Dec(e).v) = e
+ReEncodeOf(e) == Enc(Dec(e).v) = e
 
 \* head minimality stated directly on the head operator
-HeadIsShortest ==
-    HasTop => LET v == Top IN
-              (v.t \in {"uint", "nint", "tag"}) =>
-                  LET h == Hd(0, v.n) IN
-                  /\ IsMag(v.n)
-                  /\ Len(h) = (CASE Len(v.n) = 0 -> 1
-                                 [] Len(v.n) = 1 -> IF v.n[1] < 24 THEN 1 ELSE 2
-                                 [] Len(v.n) = 2 -> 3
-                                 [] Len(v.n) \in 3..4 -> 5
-                                 [] OTHER -> 9)
+HeadIsShortestOf(v) ==
+    (v.t \in {"uint", "nint", "tag"}) =>
+        LET h == Hd(0, v.n) IN
+        /\ IsMag(v.n)
+        /\ Len(h) = (CASE Len(v.n) = 0 -> 1
+                       [] Len(v.n) = 1 -> IF v.n[1] < 24 THEN 1 ELSE 2
+                       [] Len(v.n) = 2 -> 3
+                       [] Len(v.n) \in 3..4 -> 5
+                       [] OTHER -> 9)
 
 \* a wrapped item is a byte string whose content is exactly one item
-WrapIsExact == HasTop => WrappedExact(Enc(Wrapped(Top)))
+WrapIsExactOf(v) == WrappedExact(Enc(Wrapped(v)))
+
+RoundTrip         == HasTop => RoundTripOf(Top, TopEnc)
+SelfDelimiting    == HasTop => SelfDelimitingOf(TopEnc)
+NoItemIsAPrefix   == HasTop => NoItemIsAPrefixOf(TopEnc)
+CanonicalEncoding == HasTop => CanonicalEncodingOf(TopEnc)
+ReEncode          == HasTop => ReEncodeOf(TopEnc)
+HeadIsShortest    == HasTop => HeadIsShortestOf(Top)
+WrapIsExact       == HasTop => WrapIsExactOf(Top)
+
+\* distinct items have distinct, prefix-incomparable encodings (the new top against everything below it;
+\* the pairs below the top were compared when the upper one of them was the top)
+PrefixFreeOf(v, e) ==
+    \A j \in 1..(Len(stack) - 1) :
+        LET f == Enc(stack[j]) IN
+        IF e = f THEN Plain(v) = Plain(stack[j]) ELSE ~IsPrefix(e, f) /\ ~IsPrefix(f, e)
+PrefixFree == HasTop => PrefixFreeOf(Top, TopEnc)
+
+\* all of the above with the encoding computed once (what the configurations check)
+Theorems ==
+    /\ TypeOK
+    /\ HasTop => LET v == Top e == Enc(v) IN
+                 /\ PrefixFreeOf(v, e)
+                 /\ RoundTripOf(v, e) /\ SelfDelimitingOf(e) /\ NoItemIsAPrefixOf(e) /\ CanonicalEncodingOf(e)
+                 /\ ReEncodeOf(e) /\ HeadIsShortestOf(v) /\ WrapIsExactOf(v)
 =============================================================================
